@@ -205,16 +205,16 @@ def spec(text):
                          "has_ret": fn.returns is not None, "doc": doc_clean, "doc_simple": doc_simple,
                          "func_name": fn.name, "func_name_col": None})
             for (a, has_def) in params:
-                if a.arg in ("self", "request"):
+                if a.arg in ("self", "request") or has_def:       # a defaulted parameter is never a fixture request
                     continue
                 usages.append({"name": a.arg, "line": a.lineno, "span": (a.lineno, a.col_offset, a.col_offset + len(a.arg.encode("utf-8"))),
-                               "kind": "fixture-param", "default": has_def})
-        if is_test:
+                               "kind": "fixture-param"})
+        if is_test and fdeco is None:     # a decorated fixture is a fixture whatever its name (E5, repaired)
             for (a, has_def) in params:
-                if a.arg == "self":
+                if a.arg == "self" or has_def:
                     continue
                 usages.append({"name": a.arg, "line": a.lineno, "span": (a.lineno, a.col_offset, a.col_offset + len(a.arg.encode("utf-8"))),
-                               "kind": "test-param", "default": has_def, "also_fixture": fdeco is not None})
+                               "kind": "test-param"})
 
     def visit(stmts):
         for s in stmts:
